@@ -56,6 +56,7 @@ func (e *evidence) addHarness(h *Harness, hr *harnessResult, tier string) {
 		"paths_fatal": hr.st.Fatal, "paths_deadlock": hr.st.Deadlock, "paths_bound": hr.st.Bound, "paths_unsupported": hr.st.Unsupported,
 		"forks": hr.st.Forks, "ssa_steps": hr.st.Steps,
 		"assertions_checked": hr.st.AssertChecks, "assertion_queries": hr.st.AssertQueries, "assertions_failed": hr.st.AssertFail,
+		"assertions_undecided": hr.st.AssertUnknown, "branch_feasibility_undecided_branch_kept": hr.st.FeasUnknown,
 		"queries": map[string]any{"total": hr.queries, "unsat": hr.nunsat, "sat": hr.nsat, "unknown": hr.nunk, "error_lines": hr.nerr},
 		"solver_time_s": hr.soltime.Seconds(), "wall_s": hr.wall, "reach": hr.st.Reach, "notes": hr.st.Notes,
 		"functions_encoded": fns, "rewrites": rw, "findings": fl, "infra": hr.infra, "smt_terms": hr.terms,
